@@ -104,6 +104,7 @@ func scanLong(comment bool) stateFn {
 				break OpeningLoop
 			default:
 				if comment {
+					l.backup() // the line break may be this very character
 					l.ignore()
 					return scanShortComment
 				}
